@@ -768,6 +768,9 @@ func (vm *vm) captureAsyncStack(stack []StackFrame, runner *asyncRunner) []Stack
 }
 
 func (vm *vm) pushTryFrame(catchPos, finallyPos int32) {
+	if verifEnabled {
+		verifReallocStacks(vm)
+	}
 	vm.tryStack = append(vm.tryStack, tryFrame{
 		callStackLen: uint32(len(vm.callStack)),
 		iterLen:      uint32(len(vm.iterStack)),
@@ -971,6 +974,9 @@ func (vm *vm) saveCtx(ctx *context) {
 }
 
 func (vm *vm) pushCtx() {
+	if verifEnabled {
+		verifReallocStacks(vm)
+	}
 	if len(vm.callStack) > vm.maxCallStackSize {
 		ex := &StackOverflowError{}
 		ex.stack = vm.captureStack(nil, 0)
